@@ -6,6 +6,9 @@ use std::sync::Arc;
 use ahash::AHashMap;
 use bs58;
 use log::{debug, error, info, warn};
+#[cfg(saito_verif)]
+use crate::core::util::verif::RwLock;
+#[cfg(not(saito_verif))]
 use tokio::sync::RwLock;
 
 use crate::core::consensus::block::{Block, BlockType};
